@@ -8,5 +8,5 @@ CONSTANTS
   NR = 2
   MaxWords = 5
   MaxCap = 8
-  FixOnes = FALSE
+  FixOnes = TRUE
 CHECK_DEADLOCK FALSE
